@@ -2032,6 +2032,7 @@ pub fn main(opts: &Opts) -> i32 {
         let stim = gen_stim(&mut r, &d.ins, cycles);
         log.count("designs");
         let mut ok_any = false;
+        let mut lines: Vec<(usize, String, String)> = vec![];
         let ncfg = if opts.num("tiny", 0) == 1 { 1 } else { CFGS.len() };
         for cfg in 0..ncfg {
             let case = Case {
@@ -2048,6 +2049,7 @@ pub fn main(opts: &Opts) -> i32 {
                 Ok((op, imp)) => {
                     log.count("cases");
                     log.count(&format!("cfg.{}", CFGS[cfg].0));
+                    lines.push((cfg, op.clone(), imp.clone()));
                     log.push(op, imp);
                     ok_any = true;
                 }
@@ -2067,9 +2069,20 @@ pub fn main(opts: &Opts) -> i32 {
         }
         if let Some(m) = model.as_mut() {
             // first failing configuration of this design, reduced
-            for cfg in 0..ncfg {
-                let c = case_of(&d, cfg, &stim);
-                if let Some(v) = verdict(m, &c) {
+            for (cfg, op, imp) in &lines {
+                let cfg = *cfg;
+                // the model's verdict on the replies already computed
+                let v = m.ask(op).and_then(|rep| {
+                    if rep == "bad-op" {
+                        return None;
+                    }
+                    let (isv, msv, mvm, mem) = (field(imp, "sv").to_string(), field(&rep, "sv").to_string(), field(&rep, "vm").to_string(), field(&rep, "emit").to_string());
+                    if msv == "dc" || msv.is_empty() {
+                        return None;
+                    }
+                    Some((msv != isv, mvm != "dc" && mvm != isv, mem != "eq"))
+                });
+                if let Some(v) = v {
                     if [v.0, v.1, v.2][which] {
                         let (d2, st2, used) = shrink(m, &d, cfg, &stim, which, opts.num("budget", 400) as usize);
                         let c2 = case_of(&d2, cfg, &st2);
